@@ -307,6 +307,29 @@ fn capi_case(case: &str) -> Option<String> {
     }
 }
 
+/// C04: `reject if` passes only when NONE of its alternatives matches
+fn reject_if_alternatives() -> Option<String> {
+    let root = KeyPair::new();
+    let mut bad = vec![];
+    // a(1) is present, b(1) is not: the first alternative matches, so the check must fail
+    for (name, src) in [("authority check", "reject if a($x) or b($x)"), ("authority check, other order", "reject if b($x) or a($x)")] {
+        let t = Biscuit::builder().fact("a(1)").unwrap().check(src).unwrap().build(&root).unwrap();
+        let mut az = AuthorizerBuilder::new().policy("allow if true").unwrap().build(&t).unwrap();
+        if az.authorize().is_ok() { bad.push(format!("{}: `{}` with a(1) present is accepted", name, src)); }
+    }
+    let t = Biscuit::builder().fact("a(1)").unwrap().build(&root).unwrap();
+    let mut az = AuthorizerBuilder::new().check("reject if a($x) or b($x)").unwrap().policy("allow if true").unwrap().build(&t).unwrap();
+    if az.authorize().is_ok() { bad.push("authorizer check `reject if a($x) or b($x)` with a(1) present is accepted".to_string()); }
+    let t2 = t.append(BlockBuilder::new().check("reject if b($x) or a($x)").unwrap()).unwrap();
+    let mut az = AuthorizerBuilder::new().policy("allow if true").unwrap().build(&t2).unwrap();
+    if az.authorize().is_ok() { bad.push("block 1 check `reject if b($x) or a($x)` with a(1) in the authority block is accepted".to_string()); }
+    // control: single alternative
+    let t3 = Biscuit::builder().fact("a(1)").unwrap().check("reject if a($x)").unwrap().build(&root).unwrap();
+    let mut az = AuthorizerBuilder::new().policy("allow if true").unwrap().build(&t3).unwrap();
+    if az.authorize().is_ok() { bad.push("control `reject if a($x)` accepted".to_string()); }
+    if bad.is_empty() { None } else { Some(bad.join("; ")) }
+}
+
 fn main() {
     if std::env::args().nth(1).as_deref() == Some("--child") {
         capi_child(&std::env::args().nth(2).unwrap());
@@ -320,6 +343,7 @@ fn main() {
         "schema_version_features" => schema_version_features(),
         "underdeclared_block_accepted" => underdeclared_block_accepted(),
         "iterations_zero_budget" => iterations_zero_budget(),
+        "reject_if_alternatives" => reject_if_alternatives(),
         "capi_public_key_serialize_secp256r1" | "capi_public_key_serialize_ed25519" | "capi_serialize_sealed" => capi_case(&case),
         "snapshot_iteration_underflow" => snapshot_iteration_underflow(),
         "facts_over_budget_at_start" => facts_over_budget_at_start(),
